@@ -99,3 +99,26 @@ fn scalar_reduce256_is_one_conditional_subtraction() {
     }
     kani::cover!(true);
 }
+// from_bytes: limb k is bits 56k .. 56k+55 of the little-endian value (7 bytes per limb, 4 bytes for the top limb), for all 2^256
+// encodings; with to_bytes(from_bytes(b)) == b (kani:backend:scalar_views_are_the_encoding) this fixes to_bytes on every
+// normalised limb vector as well, i.e. the value view v5 of the Verus unit scalar64 is the little-endian integer of the bytes
+// @harness props=C15,C13,C14 kind=full tier=quick timeout=600
+#[kani::proof]
+#[kani::unwind(9)]
+fn scalar_from_bytes_limbs_are_the_le_value() {
+    let b: [u8; 32] = kani::any();
+    let s = Scalar::from_bytes(&b);
+    let mut k = 0;
+    while k < 5 {
+        let n = if k < 4 { 7 } else { 4 };
+        let mut e = 0u64;
+        let mut j = 0;
+        while j < n {
+            e |= (b[7 * k + j] as u64) << (8 * j);
+            j += 1;
+        }
+        assert!(s.0[k] == e, "limb k == bits 56k.. of le(b)");
+        k += 1;
+    }
+    kani::cover!(true);
+}
